@@ -84,6 +84,11 @@ package unserializers
 //@   inline
 //@   requires [C01:pre] p != nil
 //@   ensures [C01:spdx:node:scalars] result != nil && spdxNodeOf(result, p)
+//@   ensures [C01:spdx:node:hashes] len(p.PackageChecksums) > 0 ==> result.Hashes != nil && (forall k int32 :: (k in result.Hashes) ==> (exists j int :: 0 <= j && j < len(p.PackageChecksums) && result.Hashes[k] == p.PackageChecksums[j].Value))
+//@   ensures [C01:spdx:node:extrefs] forall a int :: 0 <= a && a < len(result.ExternalReferences) ==> result.ExternalReferences[a] != nil && (exists j int :: 0 <= j && j < len(p.PackageExternalReferences) && p.PackageExternalReferences[j] != nil && result.ExternalReferences[a].Url == p.PackageExternalReferences[j].Locator && result.ExternalReferences[a].Comment == p.PackageExternalReferences[j].ExternalRefComment)
+//@   invariant L0: [C01:inv] n != nil && fresh(n) && n.Hashes != nil && fresh(n.Hashes) && n.Identifiers != nil && n.Hashes != n.Identifiers && (forall k int32 :: (k in n.Hashes) ==> (exists j int :: 0 <= j && j < _i && n.Hashes[k] == p.PackageChecksums[j].Value))
+//@   invariant L1: [C01:inv] n != nil && fresh(n) && n.Identifiers != nil && fresh(n.Identifiers) && fresh(arr(n.ExternalReferences)) && (len(p.PackageChecksums) > 0 ==> n.Hashes != nil && n.Hashes != n.Identifiers && (forall k int32 :: (k in n.Hashes) ==> (exists j int :: 0 <= j && j < len(p.PackageChecksums) && n.Hashes[k] == p.PackageChecksums[j].Value)))
+//@   invariant L1: [C01:inv] forall a int :: 0 <= a && a < len(n.ExternalReferences) ==> n.ExternalReferences[a] != nil && (exists j int :: 0 <= j && j < _i && p.PackageExternalReferences[j] != nil && n.ExternalReferences[a].Url == p.PackageExternalReferences[j].Locator && n.ExternalReferences[a].Comment == p.PackageExternalReferences[j].ExternalRefComment)
 //@   ensures [C01:spdx:node:licenseConcluded] result.LicenseConcluded == ((p.PackageLicenseConcluded != "NOASSERTION" && p.PackageLicenseConcluded != "") ? p.PackageLicenseConcluded : "")
 //@   ensures [C01:spdx:node:people] (p.PackageSupplier != nil && p.PackageSupplier.Supplier != "NOASSERTION" ==> len(result.Suppliers) == 1 && result.Suppliers[0] != nil && result.Suppliers[0].Name == p.PackageSupplier.Supplier && (result.Suppliers[0].IsOrg <==> p.PackageSupplier.SupplierType == "Organization")) && (p.PackageOriginator != nil && p.PackageOriginator.Originator != "NOASSERTION" && p.PackageOriginator.Originator != "" ==> len(result.Originators) == 1 && result.Originators[0] != nil && result.Originators[0].Name == p.PackageOriginator.Originator && (result.Originators[0].IsOrg <==> p.PackageOriginator.OriginatorType == "Organization"))
 
